@@ -36,7 +36,10 @@ SPEC_CFGS = {
     "t_coe4": sched_cfg(4, 2, 0, ["TRUE"], False, ["ok", "err"]),
     "t_can4": sched_cfg(4, 2, 0, ["FALSE"], True, ["ok", "err"], props="Refines"),
     "t_n3":   sched_cfg(3, 3, 3, ["TRUE", "FALSE"], True, ["ok", "err", "goexit"], props="Refines"),
-    "t_all3": sched_cfg(3, 2, 3, ["TRUE", "FALSE"], True, ["ok", "err", "goexit", "cancel"], dup=True),
+    # every outcome together, both modes, replacement workers (1.9 M states, 3 min on a loaded machine; with external
+    # cancellation at every instant and duplicate dependencies on top TLC did not finish within the 50-minute limit:
+    # those are covered separately by q_ff / q_can / t_can4 and q_dup / q_coe)
+    "t_all3": sched_cfg(3, 2, 3, ["TRUE", "FALSE"], False, ["ok", "err", "goexit", "cancel"], dup=False),
 }
 
 SIM_CFG = """CONSTANTS MaxJ = %d  MaxN = %d  G = 6  COES = {TRUE, FALSE}  CANCEL = %s  GATED = TRUE  DUPDEPS = TRUE  CTX2 = TRUE
